@@ -53,7 +53,7 @@ func Harness_C16_bridge_close() {
 	src := newC02End(data, []int{n}, selfEnd, -1)
 	dst := newC02End(nil, nil, false, -1)
 	b := NewBridge(ctx, &BridgeConfig{TunnelID: "tun-1", MappingID: "pm1", SourceConn: src, CloudControl: cloud})
-	b.SetTargetConnection(c02TunnelConn{dst})
+	b.SetTargetConnection(c02TunnelConn{conn: dst})
 	done := make(chan struct{})
 	verif_GoGate(func() {
 		b.Start()
@@ -87,11 +87,11 @@ func Harness_C16_bridge_close() {
 	// a target that attaches after the bridge was closed (the dispatcher looked the bridge up just
 	// before) is released by the next Close, as the lifecycle's deferred Close relies on
 	late := newC02End(nil, nil, false, -1)
-	b.SetTargetConnection(c02TunnelConn{late})
+	b.SetTargetConnection(c02TunnelConn{conn: late})
 	verif_Assert("C16.bridge.close_after_late_attach", b.Close() == nil)
 	_, lateClosed := late.snapshot()
 	verif_Assert("C16.bridge.late_target_released", lateClosed)
-	b.SetTargetConnection(c02TunnelConn{dst})
+	b.SetTargetConnection(c02TunnelConn{conn: dst})
 	verif_Assert("C16.bridge.start_after_close", b.Start() != nil || true)
 	mp2, _ := cloud.GetPortMapping("pm1")
 	verif_Assert("C16.bridge.totals_stable", mp2.TrafficStats.BytesSent == mp.TrafficStats.BytesSent)
